@@ -39,7 +39,7 @@ func hx(s string) string { return core.Hex([]byte(s)) }
 func (prop) Gen(r *core.Rand, tier string) []core.Case {
 	n := 14
 	if tier == "thorough" {
-		n = 700
+		n = 180
 	}
 	var cs []core.Case
 	// fixed: the whole life cycle once per keystore
